@@ -33,6 +33,8 @@ enum Op {
     FfiGet(usize, usize),
     Push(usize, u64),
     Concat(usize, usize),
+    /// `a + b` (the script's operator; the same `concat` underneath)
+    Plus(usize, usize),
     Contains(usize, u64),
     Swap(usize, usize, usize),
     Len(usize),
@@ -53,6 +55,7 @@ impl Op {
             Op::FfiGet(l, i) => format!("f{l}.{i}"),
             Op::Push(l, v) => format!("p{l}.{v}"),
             Op::Concat(a, b) => format!("c{a}.{b}"),
+            Op::Plus(a, b) => format!("a{a}.{b}"),
             Op::Contains(l, v) => format!("h{l}.{v}"),
             Op::Swap(l, i, j) => format!("s{l}.{i}.{j}"),
             Op::Len(l) => format!("n{l}"),
@@ -72,6 +75,8 @@ impl Op {
             Op::Push(..) => "push",
             Op::Concat(a, b) if a == b => "concat-self",
             Op::Concat(..) => "concat",
+            Op::Plus(a, b) if a == b => "plus-self",
+            Op::Plus(..) => "plus",
             Op::Contains(..) => "contains",
             Op::Swap(..) => "swap",
             Op::Len(..) => "len",
@@ -86,6 +91,17 @@ impl Op {
             Op::ToVec(..) => "to_vec",
         }
     }
+    /// the operation as the model has it: the typed `==` and the script's
+    /// `==` are `Op.eq`, `+` is `concat`; through a script `get` is the
+    /// script-side get (`ffi::list_get`)
+    fn model_text(&self, script: bool) -> String {
+        match self {
+            Op::EqTyped(a, b) => format!("e{a}.{b}"),
+            Op::Plus(a, b) => format!("c{a}.{b}"),
+            Op::Get(l, i) if script => format!("f{l}.{i}"),
+            o => o.text(),
+        }
+    }
     fn parse(s: &str) -> Option<Op> {
         let (k, rest) = s.split_at(1);
         let n: Vec<u64> = rest.split('.').map(|x| x.parse().ok()).collect::<Option<_>>()?;
@@ -94,6 +110,7 @@ impl Op {
             ("f", [l, i]) => Op::FfiGet(*l as usize, *i as usize),
             ("p", [l, v]) => Op::Push(*l as usize, *v),
             ("c", [a, b]) => Op::Concat(*a as usize, *b as usize),
+            ("a", [a, b]) => Op::Plus(*a as usize, *b as usize),
             ("h", [l, v]) => Op::Contains(*l as usize, *v),
             ("s", [l, i, j]) => Op::Swap(*l as usize, *i as usize, *j as usize),
             ("n", [l]) => Op::Len(*l as usize),
@@ -141,15 +158,28 @@ impl Res {
 struct Case {
     lists: Vec<Vec<u64>>,
     progs: Vec<Vec<Op>>,
+    /// the lists hold probe elements (`hk::ProbeElem`): every clone /
+    /// comparison of an element is a schedule point of its own; such a case
+    /// is judged by the property oracle only (the Lean model's steps are
+    /// those of `u64` elements)
+    elem: bool,
+    /// the operations that have a script-side adapter (get, push, concat /
+    /// `+`, contains, index, swap, len, is_empty, `==`) are called through
+    /// compiled Roto functions (`u64` elements)
+    script: bool,
 }
 
 impl Case {
     fn lists_text(&self) -> String {
         self.lists.iter().map(|l| format!("L{}", dots(l))).collect::<Vec<_>>().join(";")
     }
-    /// the programs as the model sees them (the typed `==` is `Op.eq`)
+    /// the programs as the model sees them
     fn model_progs_text(&self) -> String {
-        self.progs_text().replace('E', "e")
+        self.progs
+            .iter()
+            .map(|p| p.iter().map(|o| o.model_text(self.script)).collect::<Vec<_>>().join(","))
+            .collect::<Vec<_>>()
+            .join(";")
     }
     fn progs_text(&self) -> String {
         self.progs
@@ -170,17 +200,183 @@ impl Case {
             .split(';')
             .map(|p| if p.is_empty() { Some(vec![]) } else { p.split(',').map(Op::parse).collect() })
             .collect::<Option<Vec<_>>>()?;
-        Some(Case { lists, progs })
+        Some(Case { lists, progs, elem: false, script: false })
     }
     fn json(&self) -> serde_json::Value {
-        json!({"lists": self.lists_text(), "progs": self.progs_text()})
+        let mut j = json!({"lists": self.lists_text(), "progs": self.progs_text()});
+        if self.elem {
+            j["elem"] = json!(true);
+        }
+        if self.script {
+            j["script"] = json!(true);
+        }
+        j
     }
     /// class signature: the kinds of operations per thread (sorted by thread text)
     fn kinds(&self) -> String {
         let mut t: Vec<String> =
             self.progs.iter().map(|p| p.iter().map(|o| o.kind()).collect::<Vec<_>>().join("+")).collect();
         t.sort();
-        t.join("|")
+        if self.elem {
+            format!("elem:{}", t.join("|"))
+        } else if self.script {
+            format!("script:{}", t.join("|"))
+        } else {
+            t.join("|")
+        }
+    }
+}
+
+// ---------------------------------------------------------------- the script-side adapters
+
+const SCRIPT_SRC: &str = "
+fn l_get(l: List[u64], i: u64) -> u64? { l.get(i) }
+fn l_push(l: List[u64], v: u64) { l.push(v); }
+fn l_concat(a: List[u64], b: List[u64]) -> List[u64] { a.concat(b) }
+fn l_plus(a: List[u64], b: List[u64]) -> List[u64] { a + b }
+fn l_contains(l: List[u64], v: u64) -> bool { l.contains(v) }
+fn l_index(l: List[u64], v: u64) -> u64? { l.index(v) }
+fn l_swap(l: List[u64], i: u64, j: u64) { l.swap(i, j); }
+fn l_len(l: List[u64]) -> u64 { l.len() }
+fn l_is_empty(l: List[u64]) -> bool { l.is_empty() }
+fn l_eq(a: List[u64], b: List[u64]) -> bool { a == b }
+";
+
+type L = List<u64>;
+type TF<F> = roto::TypedFunc<roto::NoCtx, F>;
+
+/// the list operations as compiled Roto functions (`src/runtime/basic.rs`
+/// adapters between the script and `ErasedList`)
+struct ScriptFns {
+    get: TF<fn(L, u64) -> Option<u64>>,
+    push: TF<fn(L, u64)>,
+    concat: TF<fn(L, L) -> L>,
+    plus: TF<fn(L, L) -> L>,
+    contains: TF<fn(L, u64) -> bool>,
+    index: TF<fn(L, u64) -> Option<u64>>,
+    swap: TF<fn(L, u64, u64)>,
+    len: TF<fn(L) -> u64>,
+    is_empty: TF<fn(L) -> bool>,
+    eq: TF<fn(L, L) -> bool>,
+}
+
+fn script_fns() -> &'static ScriptFns {
+    static FNS: std::sync::OnceLock<ScriptFns> = std::sync::OnceLock::new();
+    FNS.get_or_init(|| {
+        let rt = roto::Runtime::new();
+        let mut pkg = roto::FileTree::test_file("c16.roto", SCRIPT_SRC, 0)
+            .compile(&rt)
+            .unwrap_or_else(|e| panic!("the C16 script does not compile: {e}"));
+        ScriptFns {
+            get: pkg.get_function("l_get").expect("l_get"),
+            push: pkg.get_function("l_push").expect("l_push"),
+            concat: pkg.get_function("l_concat").expect("l_concat"),
+            plus: pkg.get_function("l_plus").expect("l_plus"),
+            contains: pkg.get_function("l_contains").expect("l_contains"),
+            index: pkg.get_function("l_index").expect("l_index"),
+            swap: pkg.get_function("l_swap").expect("l_swap"),
+            len: pkg.get_function("l_len").expect("l_len"),
+            is_empty: pkg.get_function("l_is_empty").expect("l_is_empty"),
+            eq: pkg.get_function("l_eq").expect("l_eq"),
+        }
+    })
+}
+
+/// what a script-side operation gave: a result, or the fresh list of a concat
+enum ScriptOut<T: roto::Value> {
+    Res(Res),
+    NewList(List<T>),
+}
+
+fn script_op_u64(op: &Op, bag: &[Vec<L>]) -> Option<ScriptOut<u64>> {
+    let f = script_fns();
+    let h = |l: &usize| bag[*l].last().unwrap().clone();
+    Some(match op {
+        Op::Get(l, i) | Op::FfiGet(l, i) => ScriptOut::Res(Res::Opt(f.get.call(h(l), *i as u64))),
+        Op::Push(l, v) => {
+            f.push.call(h(l), *v);
+            ScriptOut::Res(Res::Unit)
+        }
+        Op::Concat(a, b) => ScriptOut::NewList(f.concat.call(h(a), h(b))),
+        Op::Plus(a, b) => ScriptOut::NewList(f.plus.call(h(a), h(b))),
+        Op::Contains(l, v) => ScriptOut::Res(Res::Bool(f.contains.call(h(l), *v))),
+        Op::Index(l, v) => ScriptOut::Res(Res::Opt(f.index.call(h(l), *v))),
+        Op::Swap(l, i, j) => {
+            f.swap.call(h(l), *i as u64, *j as u64);
+            ScriptOut::Res(Res::Unit)
+        }
+        Op::Len(l) => ScriptOut::Res(Res::Nat(f.len.call(h(l)) as usize)),
+        Op::IsEmpty(l) => ScriptOut::Res(Res::Bool(f.is_empty.call(h(l)))),
+        Op::Eq(a, b) => ScriptOut::Res(Res::Bool(f.eq.call(h(a), h(b)))),
+        // no script-side adapter: the Rust side
+        Op::EqTyped(..) | Op::ToVec(..) | Op::Clone(..) | Op::Drop(..) => return None,
+    })
+}
+
+// ---------------------------------------------------------------- element types
+
+/// the element type of the lists of a case
+trait El: 'static {
+    type T: roto::Value<Transformed: PartialEq> + Clone + Send + Sync + 'static;
+    fn mk(v: u64) -> Self::T;
+    /// the two halves of an element (equal for every value ever stored)
+    fn halves(t: &Self::T) -> (u64, u64);
+    fn lock_id(l: &List<Self::T>) -> usize;
+    fn ffi_get(l: &List<Self::T>, i: u64) -> Option<(u64, u64)>;
+    fn contains_owned(l: &List<Self::T>, v: u64) -> bool;
+    fn erased_eq(a: &List<Self::T>, b: &List<Self::T>) -> bool;
+    /// the operation through its script-side adapter (`u64` lists only)
+    fn script_op(_op: &Op, _bag: &[Vec<List<Self::T>>]) -> Option<ScriptOut<Self::T>> {
+        None
+    }
+}
+
+struct U64El;
+impl El for U64El {
+    type T = u64;
+    fn mk(v: u64) -> u64 {
+        v
+    }
+    fn halves(t: &u64) -> (u64, u64) {
+        (*t, *t)
+    }
+    fn lock_id(l: &List<u64>) -> usize {
+        hk::lock_id(l)
+    }
+    fn ffi_get(l: &List<u64>, i: u64) -> Option<(u64, u64)> {
+        hk::ffi_get_u64(l, i).map(|v| (v, v))
+    }
+    fn contains_owned(l: &List<u64>, v: u64) -> bool {
+        hk::contains_owned_u64(l, v)
+    }
+    fn erased_eq(a: &List<u64>, b: &List<u64>) -> bool {
+        hk::erased_eq_u64(a, b)
+    }
+    fn script_op(op: &Op, bag: &[Vec<List<u64>>]) -> Option<ScriptOut<u64>> {
+        script_op_u64(op, bag)
+    }
+}
+
+struct ProbeEl;
+impl El for ProbeEl {
+    type T = roto::Val<hk::ProbeElem>;
+    fn mk(v: u64) -> Self::T {
+        roto::Val(hk::ProbeElem::new(v))
+    }
+    fn halves(t: &Self::T) -> (u64, u64) {
+        t.0.halves()
+    }
+    fn lock_id(l: &List<Self::T>) -> usize {
+        hk::lock_id_of(l)
+    }
+    fn ffi_get(l: &List<Self::T>, i: u64) -> Option<(u64, u64)> {
+        hk::ffi_get_probe(l, i)
+    }
+    fn contains_owned(l: &List<Self::T>, v: u64) -> bool {
+        hk::contains_owned_probe(l, v)
+    }
+    fn erased_eq(a: &List<Self::T>, b: &List<Self::T>) -> bool {
+        hk::erased_eq_of(a, b)
     }
 }
 
@@ -207,6 +403,10 @@ struct Exec {
     lists: Vec<Option<Vec<u64>>>,
     /// site names of schedule points at which `O` / `S` were reported
     sites: Vec<(usize, char, String)>,
+    /// what the threads themselves noticed: (thread, operation index, what) —
+    /// `torn-element` (a result whose two halves differ: never in the list),
+    /// `concat-aliases-operand` (the result of concat is not a fresh list)
+    flags: Vec<(usize, usize, String)>,
 }
 
 impl Exec {
@@ -253,37 +453,76 @@ fn ev_letter(e: &hk::Event) -> char {
 const STEP_LIMIT: Duration = Duration::from_secs(20);
 
 /// what a thread hands back: results, spans are computed by the controller
-struct ThreadOut {
+struct ThreadOut<E: El> {
     results: Vec<Res>,
     /// number of operations completed
-    handles: Vec<Vec<List<u64>>>,
+    handles: Vec<Vec<List<E::T>>>,
 }
 
-fn run_thread(
+type Flags = std::sync::Arc<std::sync::Mutex<Vec<(usize, usize, String)>>>;
+
+fn run_thread<E: El>(
     session: std::sync::Arc<hk::Session>,
     tid: usize,
     prog: Vec<Op>,
-    mut bag: Vec<Vec<List<u64>>>,
+    mut bag: Vec<Vec<List<E::T>>>,
     done: std::sync::Arc<std::sync::Mutex<Vec<Vec<Res>>>>,
-) -> ThreadOut {
+    flags: Flags,
+    script: bool,
+) -> ThreadOut<E> {
     session.attach(tid);
     let mut results = vec![];
     let r = std::panic::catch_unwind(std::panic::AssertUnwindSafe(|| {
-        for op in &prog {
-            let res = match op {
-                Op::Get(l, i) => Res::Opt(bag[*l].last().unwrap().get(*i)),
-                Op::FfiGet(l, i) => Res::Opt(hk::ffi_get_u64(bag[*l].last().unwrap(), *i as u64)),
+        for (opi, op) in prog.iter().enumerate() {
+            // one value of an element; different halves = a value that never was in the list
+            let one = |h: (u64, u64)| -> u64 {
+                if h.0 != h.1 {
+                    flags.lock().unwrap().push((tid, opi, format!("torn-element {}|{}", h.0, h.1)));
+                }
+                h.0
+            };
+            let vals = |v: &[E::T]| -> Vec<u64> { v.iter().map(|e| one(E::halves(e))).collect() };
+            hk::op_begin();
+            // the result of a concat: must be a fresh list, not one of the
+            // operands; reading (and releasing) it is not part of the
+            // operation — detach meanwhile. Afterwards a push to the result,
+            // which no operand may see.
+            let fresh = |n: List<E::T>, a: &usize, b: &usize| -> Res {
+                let id = E::lock_id(&n);
+                if id == E::lock_id(bag[*a].last().unwrap()) || id == E::lock_id(bag[*b].last().unwrap()) {
+                    flags.lock().unwrap().push((tid, opi, "concat-aliases-operand".into()));
+                }
+                Res::List(vals(&unattached(&session, tid, move || {
+                    let v = n.to_vec();
+                    n.push(E::mk(99));
+                    v
+                })))
+            };
+            if script {
+                if let Op::Eq(a, b) = op {
+                    if a == b {
+                        // `l == l` takes no lock: the operation's one step starts here
+                        hk::sched_op("harness:eq-same");
+                    }
+                }
+            }
+            let scripted = if script { E::script_op(op, &bag) } else { None };
+            let res = match (scripted, op) {
+                (Some(ScriptOut::Res(r)), _) => r,
+                (Some(ScriptOut::NewList(n)), Op::Concat(a, b) | Op::Plus(a, b)) => fresh(n, a, b),
+                (Some(ScriptOut::NewList(_)), _) => unreachable!(),
+                (None, op) => match op {
+                Op::Get(l, i) => Res::Opt(bag[*l].last().unwrap().get(*i).map(|e| one(E::halves(&e)))),
+                Op::FfiGet(l, i) => Res::Opt(E::ffi_get(bag[*l].last().unwrap(), *i as u64).map(one)),
                 Op::Push(l, v) => {
-                    bag[*l].last().unwrap().push(*v);
+                    bag[*l].last().unwrap().push(E::mk(*v));
                     Res::Unit
                 }
-                Op::Concat(a, b) => {
+                Op::Concat(a, b) | Op::Plus(a, b) => {
                     let n = bag[*a].last().unwrap().concat(bag[*b].last().unwrap());
-                    // reading (and releasing) the private result is not part
-                    // of the operation — detach meanwhile
-                    Res::List(unattached(&session, tid, move || n.to_vec()))
+                    fresh(n, a, b)
                 }
-                Op::Contains(l, v) => Res::Bool(hk::contains_owned_u64(bag[*l].last().unwrap(), *v)),
+                Op::Contains(l, v) => Res::Bool(E::contains_owned(bag[*l].last().unwrap(), *v)),
                 Op::Swap(l, i, j) => {
                     bag[*l].last().unwrap().swap(*i, *j);
                     Res::Unit
@@ -295,9 +534,9 @@ fn run_thread(
                     }
                     Res::Bool(bag[*a].last().unwrap() == bag[*b].last().unwrap())
                 }
-                Op::Index(l, v) => Res::Opt(bag[*l].last().unwrap().index(v).map(|i| i as u64)),
+                Op::Index(l, v) => Res::Opt(bag[*l].last().unwrap().index(&E::mk(*v)).map(|i| i as u64)),
                 Op::IsEmpty(l) => Res::Bool(bag[*l].last().unwrap().is_empty()),
-                Op::ToVec(l) => Res::List(bag[*l].last().unwrap().to_vec()),
+                Op::ToVec(l) => Res::List(vals(&bag[*l].last().unwrap().to_vec())),
                 Op::Clone(l) => {
                     hk::sched_op("harness:clone");
                     let c = bag[*l].last().unwrap().clone();
@@ -313,8 +552,9 @@ fn run_thread(
                     if a == b {
                         hk::sched_op("harness:eq-same");
                     }
-                    Res::Bool(hk::erased_eq_u64(bag[*a].last().unwrap(), bag[*b].last().unwrap()))
+                    Res::Bool(E::erased_eq(bag[*a].last().unwrap(), bag[*b].last().unwrap()))
                 }
+                },
             };
             done.lock().unwrap()[tid].push(res.clone());
             results.push(res);
@@ -333,6 +573,8 @@ fn run_thread(
                 .or_else(|| p.downcast_ref::<&str>().map(|s| s.to_string()))
                 .unwrap_or_else(|| "panic".into());
             eprintln!("C16-THREAD-PANIC {tid}: {msg}");
+            // in the shared-vector model every operation returns
+            flags.lock().unwrap().push((tid, results.len(), format!("panic {msg}")));
         }
     }
     session.finish(tid);
@@ -351,28 +593,39 @@ fn unattached<R>(session: &std::sync::Arc<hk::Session>, tid: usize, f: impl FnOn
 /// Execute `case` along `prefix`, then (if `extend`) keep going with the
 /// lowest enabled thread until nobody can move.
 fn exec(case: &Case, prefix: &[usize], extend: bool) -> Exec {
+    if case.elem { exec_with::<ProbeEl>(case, prefix, extend) } else { exec_with::<U64El>(case, prefix, extend) }
+}
+
+fn exec_with<E: El>(case: &Case, prefix: &[usize], extend: bool) -> Exec {
     let n = case.progs.len();
-    let session = hk::Session::new(n, true);
+    // through a script a stale use cannot unwind (frames of compiled code):
+    // it is reported and performed
+    let script = case.script;
+    if script {
+        let _ = script_fns(); // compile before anybody is attached
+    }
+    let session = hk::Session::new(n, !script);
     // list index order = address order of the lists' mutexes (`==` locks in
     // address order; the model uses the index)
-    let mut shared: Vec<List<u64>> = case.lists.iter().map(|_| List::new()).collect();
-    shared.sort_by_key(hk::lock_id);
+    let mut shared: Vec<List<E::T>> = case.lists.iter().map(|_| List::new()).collect();
+    shared.sort_by_key(E::lock_id);
     for (l, elems) in shared.iter().zip(&case.lists) {
         for v in elems {
-            l.push(*v);
+            l.push(E::mk(*v));
         }
     }
     let done = std::sync::Arc::new(std::sync::Mutex::new(vec![vec![]; n]));
+    let flags: Flags = Default::default();
     let mut joins = vec![];
     for t in 0..n {
-        let bag: Vec<Vec<List<u64>>> = shared.iter().map(|l| vec![l.clone()]).collect();
-        let (s, p, d) = (session.clone(), case.progs[t].clone(), done.clone());
+        let bag: Vec<Vec<List<E::T>>> = shared.iter().map(|l| vec![l.clone()]).collect();
+        let (s, p, d, f) = (session.clone(), case.progs[t].clone(), done.clone(), flags.clone());
         // the machine may be out of threads for a moment: wait and try again
-        let mut job = Some((s, p, bag, d));
+        let mut job = Some((s, p, bag, d, f));
         let mut tries = 0;
         let handle = loop {
-            let (s, p, bag, d) = job.take().unwrap();
-            let r = std::thread::Builder::new().stack_size(256 * 1024).spawn(move || run_thread(s, t, p, bag, d));
+            let (s, p, bag, d, f) = job.take().unwrap();
+            let r = std::thread::Builder::new().stack_size(256 * 1024).spawn(move || run_thread::<E>(s, t, p, bag, d, f, script));
             match r {
                 Ok(h) => break h,
                 Err(e) => {
@@ -382,8 +635,8 @@ fn exec(case: &Case, prefix: &[usize], extend: bool) -> Exec {
                     }
                     std::thread::sleep(Duration::from_millis(100));
                     // the closure (and what it captured) is gone: rebuild the job
-                    let bag: Vec<Vec<List<u64>>> = shared.iter().map(|l| vec![l.clone()]).collect();
-                    job = Some((session.clone(), case.progs[t].clone(), bag, done.clone()));
+                    let bag: Vec<Vec<List<E::T>>> = shared.iter().map(|l| vec![l.clone()]).collect();
+                    job = Some((session.clone(), case.progs[t].clone(), bag, done.clone(), flags.clone()));
                 }
             }
         };
@@ -466,11 +719,22 @@ fn exec(case: &Case, prefix: &[usize], extend: bool) -> Exec {
     }
     ex.in_progress = cur_steps.iter().map(|c| !c.is_empty()).collect();
     let clean = ex.end == "ok";
+    // what had completed when the schedule ended (a thread released from an
+    // element-level schedule point by `abort` runs on to the end of its program)
+    let results_at_end = done.lock().unwrap().clone();
     if !clean {
-        session.abort();
+        if script {
+            session.abort_nounwind();
+        } else {
+            session.abort();
+        }
     }
     let mut outs = vec![];
-    if ex.end != "hung" {
+    if script && (ex.end == "dl" || ex.end == "hung") {
+        // the threads stay blocked on the real locks for good: leave them
+        LEAKED_SESSIONS.fetch_add(1, std::sync::atomic::Ordering::SeqCst);
+        std::mem::forget(joins);
+    } else if ex.end != "hung" {
         for j in joins {
             match j.join() {
                 Ok(o) => outs.push(o),
@@ -478,17 +742,37 @@ fn exec(case: &Case, prefix: &[usize], extend: bool) -> Exec {
             }
         }
     }
-    ex.results = done.lock().unwrap().clone();
-    if clean && outs.len() == n {
+    ex.results = results_at_end;
+    ex.flags = flags.lock().unwrap().clone();
+    let panicked = ex.flags.iter().any(|f| f.2.starts_with("panic "));
+    if panicked && ex.end == "ok" {
+        // (the list's mutex is poisoned: its contents cannot be read any more)
+        ex.end = "panic".into();
+    }
+    if clean && !panicked && outs.len() == n {
         // final contents of the shared lists, through any handle still alive
         for l in 0..case.lists.len() {
             let h = outs.iter().find_map(|o| o.handles[l].last());
-            ex.lists.push(h.map(|h| h.to_vec()));
+            ex.lists.push(h.map(|h| {
+                h.to_vec()
+                    .iter()
+                    .map(|e| {
+                        let (a, b) = E::halves(e);
+                        if a != b {
+                            ex.flags.push((usize::MAX, 0, format!("torn-element {a}|{b}")));
+                        }
+                        a
+                    })
+                    .collect()
+            }));
         }
     }
     let _ = outs.iter().map(|o| o.results.len()).sum::<usize>();
     ex
 }
+
+/// script-side sessions that ended in a deadlock: their threads are still there
+static LEAKED_SESSIONS: std::sync::atomic::AtomicUsize = std::sync::atomic::AtomicUsize::new(0);
 
 /// every maximal schedule of the real code, by stateless depth-first search
 fn enumerate_real(case: &Case, limit: usize) -> (Vec<Exec>, bool) {
@@ -496,7 +780,7 @@ fn enumerate_real(case: &Case, limit: usize) -> (Vec<Exec>, bool) {
     let mut todo: Vec<Vec<usize>> = vec![vec![]];
     let mut cut = false;
     while let Some(prefix) = todo.pop() {
-        if out.len() >= limit {
+        if out.len() >= limit || LEAKED_SESSIONS.load(std::sync::atomic::Ordering::SeqCst) > 40 {
             cut = true;
             break;
         }
@@ -531,7 +815,7 @@ fn spec_op(lists: &mut [Vec<u64>], op: &Op) -> Res {
             lists[*l].push(*v);
             Res::Unit
         }
-        Op::Concat(a, b) => {
+        Op::Concat(a, b) | Op::Plus(a, b) => {
             let mut v = lists[*a].clone();
             v.extend_from_slice(&lists[*b]);
             Res::List(v)
@@ -605,7 +889,7 @@ fn explained_by_two_section_concat(case: &Case, ex: &Exec) -> bool {
         };
         let op = &case.progs[t][i];
         let st = &ex.op_steps[t][i];
-        if let Op::Concat(a, b) = op {
+        if let Op::Concat(a, b) | Op::Plus(a, b) = op {
             if st.len() != 3 {
                 return false;
             }
@@ -629,7 +913,14 @@ fn explained_by_two_section_concat(case: &Case, ex: &Exec) -> bool {
 }
 
 fn replay_json(case: &Case, ex: &Exec) -> serde_json::Value {
-    json!({"lists": case.lists_text(), "progs": case.progs_text(), "sched": ex.sched_text(), "observed": ex.obs()})
+    let mut j = json!({"lists": case.lists_text(), "progs": case.progs_text(), "sched": ex.sched_text(), "observed": ex.obs()});
+    if case.elem {
+        j["elem"] = json!(true);
+    }
+    if case.script {
+        j["script"] = json!(true);
+    }
+    j
 }
 
 /// the operation thread `t` was executing at step `k`
@@ -646,6 +937,36 @@ fn op_at(case: &Case, ex: &Exec, t: usize, k: usize) -> Option<Op> {
 
 /// check one executed schedule against the property; report violations
 fn judge(case: &Case, ex: &Exec, rep: &mut Report) {
+    for (t, opi, what) in &ex.flags {
+        let opk = case.progs.get(*t).and_then(|p| p.get(*opi)).map(|o| o.kind()).unwrap_or("final-contents");
+        if let Some(msg) = what.strip_prefix("panic ") {
+            rep.violation(
+                "a list operation panicked (in the shared-vector model every operation returns; the panic also poisons the list's lock for every other handle)",
+                &format!("panic-in-operation {opk}"),
+                {
+                    let mut j = replay_json(case, ex);
+                    j["panic"] = json!(msg);
+                    j
+                },
+            );
+        } else if what.starts_with("torn-element") {
+            rep.violation(
+                "an operation returned an element whose two halves differ (every element ever stored has equal halves): the element was read while another thread was writing it",
+                &format!("torn-element {opk}"),
+                {
+                    let mut j = replay_json(case, ex);
+                    j["torn"] = json!(what);
+                    j
+                },
+            );
+        } else {
+            rep.violation(
+                "the result of concat is one of its operands, not a fresh list (a later push through one handle is seen through the other)",
+                &format!("{what} {opk}"),
+                replay_json(case, ex),
+            );
+        }
+    }
     for (k, (t, letters, _)) in ex.steps.iter().enumerate() {
         let opk = op_at(case, ex, *t, k).map(|o| o.kind()).unwrap_or("?");
         if letters.contains('S') {
@@ -761,7 +1082,9 @@ fn random_op(rng: &mut Prng) -> Op {
         0 | 1 => Op::Get(l, rng.below(6) as usize),
         2 | 3 => Op::FfiGet(l, rng.below(6) as usize),
         4 | 5 | 6 => Op::Push(l, 6 + rng.below(4)),
-        7 => Op::Concat(l, rng.below(2) as usize),
+        7 => {
+            if rng.chance(1, 3) { Op::Plus(l, rng.below(2) as usize) } else { Op::Concat(l, rng.below(2) as usize) }
+        }
         8 => Op::Contains(l, 1 + rng.below(8)),
         9 => Op::Swap(l, rng.below(5) as usize, rng.below(5) as usize),
         10 => {
@@ -819,8 +1142,157 @@ fn n_random(thorough: bool) -> u64 {
     if thorough { 3_000 } else { 1_600 }
 }
 
+/// random cases over probe elements (element-level schedule points)
+fn n_random_elem(thorough: bool) -> u64 {
+    if thorough { 1_500 } else { 250 }
+}
+
+/// Class representatives, run first whatever the seed.
+///
+/// (a) element-level: every operation that reads elements (the *walkers*:
+/// Rust-side get / to_vec / == / index, script-side get / == / contains,
+/// concat in the three lock orders) against every operation that relocates
+/// the buffer or rewrites elements (push to a full list, swap) on either
+/// list, over probe elements: each clone / comparison of an element is a
+/// schedule point, so a walk that is not covered by the list's lock can be
+/// interleaved with the mutator. Lists `[1,2,3,4]` (full) and `[1,1,3,4]`
+/// (full; equal to the first after a swap that lands between the comparison
+/// of elements 0 and 1).
+/// (b) concat with an empty operand on either side (the result must be a
+/// fresh list), over `u64` and probe elements.
+fn representatives() -> Vec<Case> {
+    let mut out = vec![];
+    let walkers = [
+        Op::Get(0, 1),
+        Op::FfiGet(0, 1),
+        Op::ToVec(0),
+        Op::EqTyped(0, 1),
+        Op::EqTyped(1, 0),
+        Op::Eq(0, 1),
+        Op::Eq(1, 0),
+        // (2 is in the list all the time; a swap that lands between the
+        // comparisons of elements 0 and 1 hides it from an unlocked scan)
+        Op::Contains(0, 2),
+        Op::Index(0, 2),
+        Op::Concat(0, 1),
+        Op::Concat(1, 0),
+        Op::Concat(0, 0),
+    ];
+    let mutators = [Op::Push(0, 7), Op::Swap(0, 0, 1), Op::Push(1, 7), Op::Swap(1, 0, 1)];
+    for w in &walkers {
+        for m in &mutators {
+            out.push(Case {
+                lists: vec![vec![1, 2, 3, 4], vec![1, 1, 3, 4]],
+                progs: vec![vec![w.clone()], vec![m.clone()]],
+                elem: true,
+                script: false,
+            });
+        }
+    }
+    // `==` over two equal lists: the comparison walks to the end
+    for w in [Op::EqTyped(0, 1), Op::EqTyped(1, 0), Op::Eq(0, 1), Op::Eq(1, 0)] {
+        for m in &mutators {
+            out.push(Case {
+                lists: vec![vec![1, 2, 3, 4], vec![1, 2, 3, 4]],
+                progs: vec![vec![w.clone()], vec![m.clone()]],
+                elem: true,
+                script: false,
+            });
+        }
+    }
+    // (c) the script-side adapters (`src/runtime/basic.rs`): histories through
+    // compiled Roto functions — `a.concat(b)` and `a + b` with empty and
+    // non-empty operands in every order, then a push / swap on the operands
+    // (and, inside the harness, a push to the result) and reads of all of
+    // them: first one thread alone, then against a pusher under the scheduler
+    for (a, b) in [(vec![], vec![1u64, 2]), (vec![1, 2], vec![]), (vec![], vec![]), (vec![1, 2], vec![3])] {
+        for (x, y) in [(0, 1), (1, 0), (0, 0), (1, 1)] {
+            for plus in [false, true] {
+                let c = if plus { Op::Plus(x, y) } else { Op::Concat(x, y) };
+                out.push(Case {
+                    lists: vec![a.clone(), b.clone()],
+                    progs: vec![vec![
+                        c.clone(),
+                        Op::Push(0, 9),
+                        Op::Swap(1, 0, 1),
+                        Op::ToVec(0),
+                        Op::ToVec(1),
+                        Op::Get(0, 0),
+                        Op::Len(1),
+                        Op::Eq(0, 1),
+                    ]],
+                    elem: false,
+                    script: true,
+                });
+                out.push(Case {
+                    lists: vec![a.clone(), b.clone()],
+                    progs: vec![vec![c, Op::ToVec(x)], vec![Op::Push(y, 8)]],
+                    elem: false,
+                    script: true,
+                });
+            }
+        }
+    }
+    // every scripted operation against a relocating push and a swap
+    for w in [
+        Op::Get(0, 1),
+        Op::Contains(0, 2),
+        Op::Index(0, 2),
+        Op::Eq(0, 1),
+        Op::Eq(1, 0),
+        Op::Len(0),
+        Op::IsEmpty(0),
+        Op::Swap(0, 1, 2),
+        Op::Push(0, 6),
+    ] {
+        for m in [Op::Push(0, 7), Op::Swap(0, 0, 1)] {
+            out.push(Case {
+                lists: vec![vec![1, 2, 3, 4], vec![1, 2, 3, 4]],
+                progs: vec![vec![w.clone()], vec![m]],
+                elem: false,
+                script: true,
+            });
+        }
+    }
+    for elem in [false, true] {
+        for (a, b) in [(vec![], vec![1u64, 2]), (vec![1, 2], vec![]), (vec![], vec![])] {
+            for c in [Op::Concat(0, 1), Op::Concat(1, 0), Op::Concat(0, 0)] {
+                out.push(Case {
+                    lists: vec![a.clone(), b.clone()],
+                    progs: vec![vec![c, Op::Push(0, 9), Op::ToVec(1)], vec![Op::Push(1, 8)]],
+                    elem,
+                    script: false,
+                });
+            }
+        }
+    }
+    out
+}
+
+fn random_elem_case(seed: u64, index: u64) -> Case {
+    let mut rng = Prng::for_case(seed ^ 0xE1E_E1E, index);
+    let lists: Vec<Vec<u64>> = (0..2)
+        .map(|_| {
+            let len = *rng.pick(&[0usize, 1, 2, 4, 4]);
+            (0..len).map(|i| 1 + (i as u64 % 3)).collect()
+        })
+        .collect();
+    let mut progs = vec![];
+    for _ in 0..2 {
+        let n = 1 + rng.below(2) as usize;
+        progs.push((0..n).map(|_| random_op(&mut rng)).collect());
+    }
+    Case { lists, progs, elem: true, script: false }
+}
+
 /// case `index` of the run
 fn case_for(seed: u64, thorough: bool, index: u64) -> Case {
+    // 0. class representatives
+    let reps = representatives();
+    if (index as usize) < reps.len() {
+        return reps[index as usize].clone();
+    }
+    let index = index - reps.len() as u64;
     let a = alphabet();
     let na = a.len() as u64;
     // 1. every pair of single operations
@@ -828,6 +1300,8 @@ fn case_for(seed: u64, thorough: bool, index: u64) -> Case {
         return Case {
             lists: base_lists(),
             progs: vec![vec![a[(index / na) as usize].clone()], vec![a[(index % na) as usize].clone()]],
+            elem: false,
+            script: false,
         };
     }
     let index = index - na * na;
@@ -845,19 +1319,25 @@ fn case_for(seed: u64, thorough: bool, index: u64) -> Case {
             let p: Vec<Op> = (0..n).map(|_| random_op(&mut rng)).collect();
             progs.push(with_drops(&p, &mut rng));
         }
-        return Case { lists: random_lists(&mut rng), progs };
+        // every 8th random case goes through the script-side adapters
+        return Case { lists: random_lists(&mut rng), progs, elem: false, script: index % 8 == 3 };
+    }
+    let index = index - n_random(thorough);
+    // 2b. random cases over probe elements
+    if index < n_random_elem(thorough) {
+        return random_elem_case(seed, index);
     }
     // 3. (thorough) every pair of programs of ≤ 2 operations over the small alphabet
-    let index = index - n_random(thorough);
+    let index = index - n_random_elem(thorough);
     let sp = small_programs();
     let n = sp.len() as u64;
-    Case { lists: base_lists(), progs: vec![sp[(index / n) as usize].clone(), sp[(index % n) as usize].clone()] }
+    Case { lists: base_lists(), progs: vec![sp[(index / n) as usize].clone(), sp[(index % n) as usize].clone()], elem: false, script: false }
 }
 
 fn total_cases(thorough: bool) -> u64 {
     let na = alphabet().len() as u64;
     let sp = small_programs().len() as u64;
-    na * na + n_random(thorough) + if thorough { sp * sp } else { 0 }
+    representatives().len() as u64 + na * na + n_random(thorough) + n_random_elem(thorough) + if thorough { sp * sp } else { 0 }
 }
 
 // ---------------------------------------------------------------- running cases
@@ -886,7 +1366,21 @@ fn model_obs_cut_at_trap(obs: &str) -> Option<(String, usize)> {
 }
 
 fn run_case(case: &Case, drv: Option<&mut Driver>, rep: &mut Report, limit: usize) {
+    // element-level cases: oracle only, and two long walks over different
+    // lists have very many interleavings that differ in nothing
+    let limit = if case.elem { limit.min(400) } else { limit };
+    let drv = if case.elem { None } else { drv };
     let (execs, cut) = enumerate_real(case, limit);
+    rep.hist(
+        "elements",
+        if case.elem {
+            "probe (element-level schedule points)"
+        } else if case.script {
+            "u64 through compiled scripts"
+        } else {
+            "u64"
+        },
+    );
     rep.hist("schedules-per-case", bucket(execs.len()));
     rep.hist("threads", case.progs.len().to_string());
     for p in &case.progs {
@@ -895,7 +1389,10 @@ fn run_case(case: &Case, drv: Option<&mut Driver>, rep: &mut Report, limit: usiz
         }
     }
     if cut {
-        rep.notes.push(format!("schedule enumeration cut at {limit} for some cases"));
+        let n = format!("schedule enumeration cut at {limit} for some cases");
+        if !rep.notes.contains(&n) {
+            rep.notes.push(n);
+        }
     }
     let mut ends: BTreeMap<String, u64> = BTreeMap::new();
     for ex in &execs {
@@ -995,6 +1492,15 @@ fn stress_case(seed: u64, index: u64) -> Case {
         Op::Len(0),
         Op::Push(1, 9),
         Op::Swap(1, 0, 1),
+        // the Rust-side walks over the whole buffer, and the script-side ones
+        Op::ToVec(0),
+        Op::ToVec(0),
+        Op::EqTyped(0, 1),
+        Op::EqTyped(1, 0),
+        Op::Eq(0, 1),
+        Op::Index(0, 4),
+        Op::Concat(0, 1),
+        Op::Concat(0, 0),
     ];
     let mut progs = vec![];
     for t in 0..2 {
@@ -1006,7 +1512,9 @@ fn stress_case(seed: u64, index: u64) -> Case {
         progs.push(p);
     }
     let len0 = *rng.pick(&[4usize, 4, 4, 8]);
-    Case { lists: vec![(1..=len0 as u64).collect(), vec![5, 6, 7, 8]], progs }
+    // list 1: now and then equal to list 0, so that `==` walks to the end
+    let l1: Vec<u64> = if rng.chance(1, 3) { (1..=len0 as u64).collect() } else { vec![5, 6, 7, 8] };
+    Case { lists: vec![(1..=len0 as u64).collect(), l1], progs, elem: false, script: false }
 }
 
 /// spawn a thread; if the machine is out of threads for a moment, wait and try again
@@ -1064,7 +1572,13 @@ fn run_stress_trial(case: &Case, spin: [u32; 2]) -> (Vec<Vec<Res>>, Vec<Vec<u64>
                         Res::Unit
                     }
                     Op::Len(l) => Res::Nat(lists[*l].len()),
-                    _ => Res::Unit,
+                    Op::ToVec(l) => Res::List(lists[*l].to_vec()),
+                    Op::EqTyped(a, b) => Res::Bool(lists[*a] == lists[*b]),
+                    Op::Eq(a, b) => Res::Bool(hk::erased_eq_u64(&lists[*a], &lists[*b])),
+                    Op::Index(l, v) => Res::Opt(lists[*l].index(v).map(|i| i as u64)),
+                    Op::IsEmpty(l) => Res::Bool(lists[*l].is_empty()),
+                    Op::Concat(a, b) | Op::Plus(a, b) => Res::List(lists[*a].concat(&lists[*b]).to_vec()),
+                    Op::Clone(_) | Op::Drop(_) => Res::Unit,
                 });
             }
             out
@@ -1108,7 +1622,8 @@ fn some_order_explains(case: &Case, results: &[Vec<Res>], lists: &[Vec<u64>]) ->
 fn stress_batch(seed: u64, off: u64, from: u64, n: u64, rep: &mut Report) {
     for k in from..from + n {
         let i = off + k;
-        if k % 64 == 0 {
+        // (one line per block of trials that share a case: the parent names the case by it)
+        if k == from || i % 64 == 0 {
             println!("START {k}");
             use std::io::Write;
             std::io::stdout().flush().ok();
@@ -1327,12 +1842,14 @@ fn main() {
                 },
             );
             rep.notes.push(format!(
-                "cases: every pair of single operations from a {}-operation alphabet on two shared lists (one full, one with room), then {} random cases (2{} threads × ≤ {} ops, + handle drops{}){}; every maximal schedule of every case is executed on the real code",
+                "cases: {} class representatives first (element-level walker x mutator, == over equal lists, concat / + with empty operands through compiled scripts and directly, every scripted operation x mutator), then every pair of single operations from a {}-operation alphabet on two shared lists (one full, one with room), then {} random cases (2{} threads × ≤ {} ops, + handle drops{}; every 8th through compiled scripts), then {} random cases over probe elements{}; every maximal schedule of every case is executed on the real code",
+                representatives().len(),
                 alphabet().len(),
                 n_random(thorough),
                 if thorough { "–3" } else { "" },
                 if thorough { 3 } else { 2 },
                 if thorough { "" } else { "; every 16th has 3 threads x 1 op" },
+                n_random_elem(thorough),
                 if thorough { format!(", then every pair of the {} programs of ≤ 2 operations over an {}-operation alphabet", small_programs().len(), small_alphabet().len()) } else { String::new() },
             ));
             if !model {
@@ -1374,7 +1891,7 @@ fn main() {
                     });
                     off += chunk;
                 }
-                rep.notes.push(format!("stress: {stress} free-running races of 2 threads x 1-2 operations (push/swap/get/contains/len) on lists at a capacity boundary, each checked against every sequential order"));
+                rep.notes.push(format!("stress: {stress} free-running races of 2 threads x 1-2 operations (push/swap/get/contains/len/to_vec/==/index/concat) on lists at a capacity boundary, each checked against every sequential order"));
             }
         }
         Some("tsan") => {
@@ -1414,7 +1931,9 @@ fn main() {
         }
         Some("replay") => {
             let v: serde_json::Value = serde_json::from_str(&args[2]).expect("json");
-            let case = Case::parse(v["lists"].as_str().unwrap_or(""), v["progs"].as_str().unwrap_or("")).expect("case");
+            let mut case = Case::parse(v["lists"].as_str().unwrap_or(""), v["progs"].as_str().unwrap_or("")).expect("case");
+            case.elem = v["elem"].as_bool() == Some(true);
+            case.script = v["script"].as_bool() == Some(true);
             if v["stress"].as_bool() == Some(true) {
                 // probabilistic: repeat the race
                 let seed = v["seed"].as_u64().unwrap_or(1);
@@ -1445,7 +1964,9 @@ fn main() {
                     println!("REPLAY sched={} obs={}", ex.sched_text(), ex.obs());
                     rep.evaluations += 1;
                     judge(&case, &ex, &mut rep);
-                    if let Ok(mut d) = Driver::spawn() {
+                    if case.elem {
+                        println!("MODEL  (none: element-level schedule points are judged by the property oracle only)");
+                    } else if let Ok(mut d) = Driver::spawn() {
                         let m = d.ask(&format!("c16 run gen {} {} {}", case.lists_text(), case.model_progs_text(), s));
                         println!("MODEL  obs={m}");
                     }
